@@ -329,6 +329,14 @@ def run(ctx):
                     ctx.ok("C17.R4", key, sample=f"unsigned {n.get('opcode')}")
                 else:
                     okr, (lo_, hi_) = _range_guarded(fn, n, var)
+                    bits = FIELD_BITS.get((fn["name"], var))
+                    if okr and bits is not None and n.get("opcode") == "<<" and hi_ >= 2 ** bits[0]:
+                        ctx.fail("C17.R4", key + ":field", fn["_file"], n["_line"], fn["name"],
+                                 f"`{var} << ...` packs {var} into a {bits[0]}-bit field ({bits[1]}) but "
+                                 f"the range checks before it allow {var} up to {hi_}: the value "
+                                 f"{2 ** bits[0]} spills out of the field and the kernel is handed a "
+                                 f"different class than the one asked for instead of EINVAL")
+                        continue
                     if okr:
                         ctx.ok("C17.R4", key, sample=f"{var} in [{lo_}, {hi_}] before the "
                                f"signed {n.get('opcode')}")
@@ -840,6 +848,13 @@ def _always_exits(st):
         ks = C.kids(st)
         return bool(ks) and _always_exits(ks[-1])
     return False
+
+
+# packed kernel values: (function, variable) -> (bits of the field it is shifted into, why)
+FIELD_BITS = {
+    ("psutil_proc_ioprio_set", "ioclass"): (3, "IOPRIO_NR_CLASSES = 8: an I/O priority value keeps "
+                                               "its class in the 3 bits above IOPRIO_CLASS_SHIFT"),
+}
 
 
 def _range_guarded(fn, node, var):
